@@ -42,6 +42,7 @@ type Scenario struct {
 	SrcIdx int
 	CtxIdx []int
 	TgtIdx int
+	Global   []string          // settings given on the command line (-g)
 	NeedConv bool              // pass the converter instance to the interpreter
 	Files    map[string]string // extra files of the scratch module (other packages)
 	Imports  []string          // extra package keys imported by conv.go
@@ -75,6 +76,9 @@ func (sc *Scenario) testMethod() *ScMethod {
 
 func (sc *Scenario) describe() map[string]any {
 	d := map[string]any{"kind": "scenario", "id": sc.ID, "interface": sc.ifaceSource()}
+	if len(sc.Global) > 0 {
+		d["cli_global"] = sc.Global
+	}
 	var ds []string
 	for _, x := range sc.Decls {
 		ds = append(ds, "package "+x.Pkg+": "+x.Source())
@@ -130,9 +134,29 @@ func scenarioModule(prefix string, scs []*Scenario) (*emit.Module, error) {
 // ScenarioWorker judges every scenario of the shard with model and real generator (in-process, isolated), then
 // generates the accepted ones with the CLI and executes them.
 func ScenarioWorker(w *pool.W, scs []*Scenario, tier string, runtime bool) error {
+	groups := map[string][]*Scenario{}
+	var order []string
+	for _, sc := range scs {
+		k := strings.Join(sc.Global, "\x00")
+		if _, ok := groups[k]; !ok {
+			order = append(order, k)
+		}
+		groups[k] = append(groups[k], sc)
+	}
+	for _, k := range order {
+		if err := scenarioGroup(w, groups[k], tier, runtime); err != nil {
+			return err
+		}
+	}
+	return nil
+}
+
+// scenarioGroup handles scenarios that share one command line.
+func scenarioGroup(w *pool.W, scs []*Scenario, tier string, runtime bool) error {
 	if len(scs) == 0 {
 		return nil
 	}
+	global := scs[0].Global
 	mod, err := scenarioModule("scn", scs)
 	if err != nil {
 		return err
@@ -143,6 +167,9 @@ func ScenarioWorker(w *pool.W, scs []*Scenario, tier string, runtime bool) error
 		return fmt.Errorf("open session (a scenario declaration does not compile?): %w", err)
 	}
 	batch := &Batch{U: space.StdUniverse()}
+	for _, g := range global {
+		batch.CLIArgs = append(batch.CLIArgs, "-g", g)
+	}
 	defer batch.Cleanup()
 	declSeen := map[string]bool{}
 	for _, sc := range scs {
@@ -175,7 +202,7 @@ func ScenarioWorker(w *pool.W, scs []*Scenario, tier string, runtime bool) error
 			verdict = model.Unspec
 		}
 		w.Begin(sc.ID + " " + fmt.Sprint(sc.Desc))
-		out := sess.Gen(rc, nil)
+		out := sess.Gen(rc, &drive.Inject{Global: global})
 		w.Count("evaluations")
 		w.CountN("transitions", res.Transitions)
 		w.Count("out:" + verdict.String() + "/real:" + out.Kind.String())
